@@ -232,3 +232,107 @@ class Gate:
             else:
                 time.sleep(0.01)
         return False
+
+
+# ------------------------------------------------------------------ trace -> model events (Model/CacheProto.v)
+ACTION = {
+    "job.lock_acquired": "AAcquire", "job.cache_checked": "AChecked", "job.cache_hit": "AHit",
+    "job.info_written": "AInfoWritten", "job.dir_cleared": "ADirCleared", "job.dir_created": "ADirCreated",
+    "save.lock_acquired": "ASaveAcq", "save.result.before": "AResBefore", "save.result.opened": "AResOpened",
+    "save.result.dumped": "AResDumped", "save.result.after": "AResAfter", "save.job.before": "AJobBefore",
+    "save.job.opened": "AJobOpened", "save.job.dumped": "AJobDumped", "save.job.after": "AJobAfter",
+    "save.lock_released": "ASaveRel", "job.job_saved": "AJobSaved", "job.populated": "APopulated",
+    "job.cwd_changed": "ACwdChanged", "job.pre_hook_done": "APreHook", "job.audit_started": "AAuditStarted",
+    "job.body_enter": "ABodyEnter", "job.body_left": "ABodyLeft", "job.outputs_collected": "AOutputs",
+    "error.before": "AErrBefore", "error.opened": "AErrOpened", "error.dumped": "AErrDumped",
+    "error.after": "AErrAfter", "job.error_recorded": "AErrRecorded", "job.post_hook_done": "APostHook",
+    "job.audit_finalised": "AAuditFinal", "job.result_saved": "AResultSaved", "job.info_removed": "AInfoRemoved",
+    "job.cwd_restored": "ACwdRestored", "job.lock_released": "ALockReleased", "job.post_run_done": "APostRun",
+    "drv.returned": "AReturned", "drv.raised": "ARaisedOut",
+}
+OPEN_LABELS = {"save.result.opened": "_result.pklz", "save.result.dumped": "_result.pklz",
+               "save.job.opened": "_job.pklz", "save.job.dumped": "_job.pklz",
+               "error.opened": "_error.pklz", "error.dumped": "_error.pklz"}
+ALL_LABELS = ["job.pre_run_done"] + [k for k in ACTION if not k.startswith("drv.")]
+
+
+def file_status(path):
+    """0 absent, 1 partial (does not unpickle), 2 whole."""
+    import pickle
+    import cloudpickle as cp
+    if not os.path.exists(path):
+        return 0
+    try:
+        with open(path, "rb") as f:
+            cp.load(f)
+        return 2
+    except (pickle.UnpicklingError, EOFError, AttributeError, ImportError, IndexError, ValueError, TypeError, KeyError):
+        return 1
+
+
+def observe_cache(cache_root, key):
+    """What the model's observe_g looks at, read from the real cache root (except the body counter)."""
+    d = os.path.join(cache_root, key)
+    return {
+        "lock": os.path.exists(os.path.join(cache_root, key + ".lock")),
+        "slock": os.path.exists(os.path.join(cache_root, key + "_save.lock")),
+        "dir": os.path.isdir(d),
+        "job": file_status(os.path.join(d, "_job.pklz")),
+        "res": file_status(os.path.join(d, "_result.pklz")),
+        "err": file_status(os.path.join(d, "_error.pklz")),
+        "infos": len([f for f in os.listdir(cache_root) if f.endswith("_info.json")]),
+        "listing": sorted(os.listdir(cache_root)) + (["%s/%s" % (key[:10], f) for f in sorted(os.listdir(d))] if os.path.isdir(d) else []),
+    }
+
+
+def events_for(trace, children, key):
+    """Translate the recorded lines that concern checksum `key` into model events.
+
+    children: {os pid: dict(idx=model pid, subs=[submission cfgs], inject=(label, nth) | None,
+                            crashed=bool, crash_file_status=int|None)}
+    Environment events are inserted from what the harness itself arranged (failing body, raising hook,
+    injected exception, kill) -- never guessed from the trace.
+    """
+    ev = []
+    sub_no = {}
+    hits = {}
+    last_label = {}
+    pending_body = {}
+    for pid, _tid, label, k in trace:
+        ch = children.get(pid)
+        if ch is None or (k not in ("-", key)):
+            continue
+        i = ch["idx"]
+        if label == "job.pre_run_done":
+            sub_no[i] = sub_no.get(i, -1) + 1
+        sc = ch["subs"][min(sub_no.get(i, 0), len(ch["subs"]) - 1)]
+        if pending_body.pop(i, False) and label == "error.before" and sc.get("_body_raises"):
+            ev.append((i, "ABodyRaise"))
+        if label == "job.pre_run_done":
+            ev.append((i, "(APreRun %s %s)" % ("true" if sc.get("rerun") else "false", "true" if sc.get("_async") else "false")))
+        else:
+            ev.append((i, ACTION[label]))
+        last_label[i] = label
+        hits[(i, label)] = hits.get((i, label), 0) + 1
+        if label == "job.body_enter":
+            pending_body[i] = True
+        inj = ch.get("inject")
+        if inj and inj[0] == label and inj[1] == hits[(i, label)]:
+            ev.append((i, "AExc"))
+            pending_body.pop(i, None)
+        hr = sc.get("hook_raises")
+        if hr == "pre_run_task" and label == ("job.populated" if sc.get("_async") else "job.cwd_changed"):
+            ev.append((i, "APreHookRaise"))
+        if hr == "post_run_task" and label in ("job.outputs_collected", "job.error_recorded"):
+            ev.append((i, "APostHookRaise"))
+    for pid, ch in children.items():
+        if ch.get("crashed"):
+            i = ch["idx"]
+            if last_label.get(i) in OPEN_LABELS and ch.get("crash_file_status") is not None:
+                ev.append((i, "(AProgress %d)" % {0: 0, 1: 2, 2: 4}[ch["crash_file_status"]]))
+            ev.append((i, "ACrash"))
+    return ev
+
+
+def coq_events(ev):
+    return "[" + "; ".join("(%d, %s)" % (i, a) for i, a in ev) + "]"
